@@ -11,7 +11,7 @@ from .facts import Run, normal
 from .interp import Ctx, analyse_function, analyse_method, exc_is_subclass
 from .model import AnalysisError
 from .report import RuleResult
-from .terms import Child, Const, Fn, New, Sym, Term, Val
+from .terms import Seq,  Child, Const, Fn, New, Sym, Term, Val
 
 
 # ------------------------------------------------------------------ R-FP
@@ -116,6 +116,51 @@ def rule_FP(run: Run) -> RuleResult:
                 bad.append("f-string over options")
         res.add(f"{cons}:no-nondeterministic-source", not bad, f, fn.lineno,
                 "no hash/id/repr/random/time/environment use" if not bad else f"uses {sorted(set(bad))}", nec)
+        # (f) every reported key is serialised with its value: on every returning path the dumped list ranges over
+        # the whole of keys(options) — no filter, no slice, no list built up under a condition
+        from .interp import analyse_function, Coll
+        fps = analyse_function(Ctx(repo), c.module, fn, cls=c)
+        K = f"elem(call:keys({selfn},{opt}))"
+        V = f"call:confectioner.templating.get_dotted_key({K},{opt})"
+        okf, whyf = bool(fps), ""
+        n_ret = 0
+
+        def find_dump(t, d=0):
+            if isinstance(t, Sym) and t.head in ("call:json.dumps", "call:dumps"):
+                return t
+            for a in (getattr(t, "args", ()) or ()):
+                if d < 6:
+                    r_ = find_dump(a, d + 1)
+                    if r_ is not None:
+                        return r_
+            return None
+        for p in fps:
+            if p.status != "ret":
+                continue
+            n_ret += 1
+            dmp = find_dump(p.ret)
+            arg = dmp.args[0] if dmp is not None and dmp.args else None
+            per_elem = [c for c in p.conds if c[2] and K in c[2]]
+            if isinstance(arg, Seq) or (isinstance(arg, Sym) and arg.head == "list[]"):
+                # a list filled by an explicit loop: one abstract iteration (or none) stands for all of them, provided
+                # nothing was decided per key on the way
+                items = list(arg.items) if isinstance(arg, Seq) else []
+                if per_elem or any(it.key() != f"dict(item({K},{V}))" for it in items) or len(items) > 1:
+                    okf, whyf = False, (f"an entry is added only when `{per_elem[0][0][:60]}` is {per_elem[0][1]}: not one entry per reported key" if per_elem
+                                        else f"a path dumps {arg.key()[:90]}: not one entry per reported key")
+                continue
+            if not (isinstance(arg, Coll) and not getattr(arg, "partial", False)):
+                okf, whyf = False, f"a path dumps {arg.key()[:90] if arg is not None else p.ret.key()[:90]}: not one entry per reported key"
+                continue
+            if arg.elem.key() != f"dict(item({K},{V}))":
+                okf, whyf = False, f"the dumped entries are {arg.elem.key()[:120]}, not {{key: value}} for each key of keys({opt})"
+            flt = [e for e in p.events if e.kind == "filter"]
+            if flt:
+                okf, whyf = False, f"reported keys are filtered before being serialised (`{flt[0].text}`, line {flt[0].line})"
+        res.add(f"{cons}:every-reported-key-serialised", okf and n_ret > 0, f, fn.lineno,
+                whyf or f"{n_ret} returning path(s): one {{key: value}} entry for each key of keys({opt})",
+                "a reported key left out of the fingerprint no longer separates cache entries: two option dictionaries that differ "
+                "only under that key share a stored result (C01, C03)")
         if c.name != "Cacheable":
             res.notes.append(f"override of fingerprint in {c.qualname} held to the same rule")
     return res
@@ -450,6 +495,37 @@ def rule_MC(run: Run) -> RuleResult:
         res.add(f"{m.name}:writes MemoryCache._cache:{'allowed' if ok else ast.unparse(n)[:60]}", ok, m.relpath, n.lineno,
                 "write to ._cache " + ("inside MemoryCache.__init__/set" if ok else "outside MemoryCache.__init__/set"),
                 "the only path into the memo dictionary must be the set handler after a successful evaluation (C12)")
+    # the memo only grows: no method drops (or re-binds) what it holds.  The memo attributes are found by role:
+    # whatever __init__ stores on self; removals are read off the paths of every method (helpers inlined)
+    REMOVERS = {"pop", "popitem", "clear", "__delitem__", "remove", "discard"}
+    init = mc.find_method("__init__")
+    memo_attrs = set()
+    if init is not None:
+        for p in analyse_function(Ctx(repo), init[0].module, init[1], cls=mc):
+            for e in p.events:
+                if e.kind == "store" and len(e.args) == 2 and e.args[0].key() == "self" and isinstance(e.args[1], Const):
+                    memo_attrs.add(e.args[1].v)
+    n_m = 0
+    for mn, mfn in mc.methods.items():
+        if mn in ("__init__", "__setstate__", "__getstate__") or any(ast.unparse(d) in ("staticmethod", "classmethod", "property") for d in mfn.decorator_list):
+            continue
+        bad = None
+        for p in analyse_function(Ctx(repo), mc.module, mfn, cls=mc):
+            for e in p.events:
+                tk = e.target.key() if e.target is not None else ""
+                if e.kind == "call" and e.text in REMOVERS and any(tk == f"attr:{a}(self)" for a in memo_attrs):
+                    bad = bad or (e.line, f"self.{tk[5:-6]}.{e.text}(…) removes a stored entry")
+                if e.kind == "delete" and len(e.args) == 2 and any(e.args[0].key() == f"attr:{a}(self)" for a in memo_attrs):
+                    bad = bad or (e.line, f"del {e.text} removes a stored entry")
+                if e.kind == "store" and len(e.args) == 2 and e.args[0].key() == "self" and isinstance(e.args[1], Const) and e.args[1].v in memo_attrs:
+                    bad = bad or (e.line, f"self.{e.args[1].v} is re-bound: the entries stored so far are dropped")
+        n_m += 1
+        res.add(f"labrea.cache.MemoryCache.{mn}:never drops a stored entry", bad is None, f, bad[0] if bad else mfn.lineno,
+                bad[1] if bad else f"no removal from self.{{{', '.join(sorted(memo_attrs))}}} on any path",
+                "a result stored for an option assignment must stay served: an entry that is evicted, popped or cleared makes the body "
+                "(and its effects) run again for an assignment it already ran for (C02)")
+    if not memo_attrs or n_m < 2:
+        raise AnalysisError("MemoryCache: no memo attribute set in __init__ / no methods to check (anchor vanished)")
     # who may construct CacheSetRequest / call Cache.set
     for m in repo.modules.values():
         for fnm, cls, fn, q in _functions(repo, m):
@@ -467,8 +543,20 @@ def rule_MC(run: Run) -> RuleResult:
                         ok = bool(users_) and users_ <= {"evaluate"} | {mn for mn in astu.reachable_self_methods(ci_, ["evaluate"]) if mn not in ("validate", "keys", "explain")} \
                             and fn.name not in astu.reachable_self_methods(ci_, ["validate"]) and fn.name not in astu.reachable_self_methods(ci_, ["keys"]) \
                             and fn.name not in astu.reachable_self_methods(ci_, ["explain"])
+                    how_ = f"CacheSetRequest constructed in {q}"
+                    if not ok and cls is not None and cls.name.startswith("_"):
+                        # a method of a private helper class: allowed when the class is only ever instantiated inside Cached
+                        # and the interpreter reaches this construction from Cached.evaluate and from no other operation
+                        ci_ = repo.cls("Cached")
+                        built_in = [(m2.name, fn2, cls2) for m2 in repo.modules.values() for _, cls2, fn2, q2 in _functions(repo, m2)
+                                    for c2 in astu.calls_in(fn2) if astu.short_name(c2) == cls.name]
+                        inside = bool(built_in) and all(cls2 is not None and cls2.name == "Cached" for _, fn2, cls2 in built_in)
+                        reach = {op_ for op_ in ("evaluate", "validate", "keys", "explain") for p_ in run.paths(ci_, op_)
+                                 for e_ in p_.events if e_.kind == "call" and e_.text == "new CacheSetRequest" and e_.line == c.lineno and e_.file == m.relpath}
+                        ok = inside and reach == {"evaluate"}
+                        how_ += f" (helper class built only inside Cached: {inside}; reached from Cached.{sorted(reach)})"
                     res.add(f"{q}:constructs CacheSetRequest", ok, m.relpath, c.lineno,
-                            f"CacheSetRequest constructed in {q}", "only Cached.evaluate, after computing, may request a store (C12, C18)")
+                            how_, "only Cached.evaluate, after computing, may request a store (C12, C18)")
                 if nm == "set" and isinstance(c.func, ast.Attribute) and len(c.args) == 3 and "cache" in ast.unparse(c.func.value).lower():
                     ok = q.endswith("_set_cache_handler")
                     res.add(f"{q}:calls Cache.set", ok, m.relpath, c.lineno,
@@ -538,6 +626,31 @@ def rule_CE(run: Run) -> RuleResult:
         bad = [(n, all_may[n][1].get(q)) for n in failures if q in all_may[n][0]]
         res.add(f"{label}:CacheGetFailure-does-not-escape", not bad, cache_mod.relpath, fns[q].lineno,
                 "no cache failure can escape" if not bad else f"{bad[0][0]} may escape: {bad[0][1]}", nec)
+    # a handler that caught the backend's failure passes it on at once: anything it does in between (logging, formatting,
+    # another request) can fail in its own way and replace the CacheGetFailure that Cached.evaluate knows how to recover from
+    from .interp import analyse_function
+    for kind in ("get", "set", "exists"):
+        hq = parts["handlers"].get(kind)
+        if hq not in fns:
+            continue
+        bad = None
+        n_fail = 0
+        ctx_ = Ctx(repo)
+        ctx_.keep_reraise = True       # the clean-up-and-re-raise paths are the ones looked at here
+        for p in analyse_function(ctx_, cache_mod, fns[hq]):
+            idx = [i for i, e in enumerate(p.events) if e.failed and e.kind == "call" and e.text in ("get", "set", "exists")
+                   and e.target is not None and e.target.key().startswith("attr:cache(")]
+            if not idx:
+                continue
+            n_fail += 1
+            after = [e for e in p.events[idx[0] + 1:] if e.kind in ("call", "op", "store", "delete") and not (e.kind == "call" and e.text.startswith("new "))]
+            if after and bad is None:
+                e = after[0]
+                bad = (e.line, f"after the backend's {p.events[idx[0]].text}() failed the handler first runs `{e.text or e.op}` (line {e.line}) before the failure is passed on or absorbed")
+        if kind == "get" and n_fail == 0:
+            continue
+        res.add(f"{hq}:a backend failure is passed on without further work", bad is None, cache_mod.relpath, bad[0] if bad else fns[hq].lineno,
+                bad[1] if bad else f"{n_fail} failure path(s): nothing runs between the failing backend call and the handler's exit", nec)
     res.count("functions", len(fns))
     res.notes.append(f"may-raise CacheGetFailure: {raisers}")
     if not any(q.endswith("MemoryCache.get") for q in may):
@@ -667,126 +780,57 @@ def _confectioner_resolve_kinds() -> Optional[Set[str]]:
 _KIND_EQ = {"Mapping": {"Mapping", "dict", "Dict", "MutableMapping"}, "list": {"list", "List", "Sequence"}, "str": {"str"}}
 
 
-def _kinds_inspected(run: Run, cls, fn, value_names: Set[str], depth=0) -> Set[str]:
-    """Kinds of the looked-up value that the method (or helpers it hands the
-    value to) inspects for embedded templates."""
-    kinds: Set[str] = set()
-    for x in ast.walk(fn):
-        if isinstance(x, ast.Call) and astu.short_name(x) == "isinstance" and len(x.args) == 2:
-            if isinstance(x.args[0], ast.Name) and x.args[0].id in value_names:
-                t = x.args[1]
-                for y in (t.elts if isinstance(t, ast.Tuple) else [t]):
-                    kinds.add(ast.unparse(y).split(".")[-1])
-        elif isinstance(x, ast.Call) and depth < 3:
-            # value handed to a helper: follow module-level / static helpers
-            passed = [i for i, a in enumerate(x.args) if isinstance(a, ast.Name) and a.id in value_names]
-            if not passed:
-                continue
-            target = None
-            if isinstance(x.func, ast.Name):
-                r = run.repo.resolve_name(cls.module, x.func.id)
-                if r and r[0] == "func":
-                    target = r[1].node
-            elif isinstance(x.func, ast.Attribute) and isinstance(x.func.value, ast.Name) and x.func.value.id in ("self", "cls", cls.name):
-                r = cls.find_method(x.func.attr)
-                if r:
-                    target = r[1]
-            if target is not None and target is not fn:
-                ps = [a.arg for a in target.args.posonlyargs + target.args.args]
-                if ps and ps[0] in ("self", "cls") and isinstance(x.func, ast.Attribute):
-                    ps = ps[1:]
-                names = {ps[i] for i in passed if i < len(ps)}
-                # inside the helper the value may be re-bound while recursing
-                # over containers: include loop variables over it
-                for y in ast.walk(target):
-                    if isinstance(y, (ast.For, ast.comprehension)):
-                        if any(isinstance(z, ast.Name) and z.id in names for z in ast.walk(y.iter)):
-                            for z in ast.walk(y.target):
-                                if isinstance(z, ast.Name):
-                                    names.add(z.id)
-                kinds |= _kinds_inspected(run, cls, target, names, depth + 1)
-    return kinds
-
-
 def rule_RK(run: Run) -> RuleResult:
     res = RuleResult("R-RK")
     nec = ("resolve() follows {KEY} references inside lists and mappings; a reference that evaluation "
            "follows and keys() does not report is a stale-cache key: Option('A') under "
            "{'A': ['{B}'], 'B': 1} then B: 2 shares a fingerprint")
+    from . import valueflow as vf
     kinds = _confectioner_resolve_kinds()
     if kinds is None:
         raise AnalysisError("confectioner.templating.resolve source not found")
     followed = {k.split(".")[-1] for k in kinds}
     res.notes.append(f"resolve() recurses into {sorted(followed)}")
     opt = run.repo.cls("Option")
+    tmpl = run.repo.cls("Template")
+    judged = {}
     for op in ("keys", "explain"):
         fn = opt.methods.get(op)
         if fn is None:
             raise AnalysisError(f"Option.{op} not found")
-        # names bound to the looked-up value, in the operation itself or in a private method it delegates to
+        starts = [mfn for mn, mfn in astu.reachable_self_methods(opt, [op]).items()
+                  if mn == op or mn not in ("keys", "explain", "evaluate", "validate")]
+        def is_origin(c, _d=0):
+            # the looked-up value: get_dotted_key()/resolve(), or a helper of the repository that returns one
+            if astu.short_name(c) in ("get_dotted_key", "resolve"):
+                return True
+            r = vf.resolve_call(run.repo, opt.module, opt, c) if _d < 2 else None
+            return bool(r and any(isinstance(x, ast.Return) and isinstance(x.value, ast.Call) and is_origin(x.value, _d + 1)
+                                  for x in astu.walk_no_nested(r[2])))
+        walks = vf.find_walks(run.repo, opt, starts, is_origin)
+        if not walks:
+            raise AnalysisError(f"Option.{op}: the looked-up value is not bound to a local (anchor vanished)")
         inspected: Set[str] = set()
-        for mn, mfn in astu.reachable_self_methods(opt, [op]).items():
-            if mn in ("keys", "explain", "evaluate", "validate") and mn != op:
-                continue
-            vnames = set()
-            for n in astu.walk_no_nested(mfn):
-                if isinstance(n, ast.Assign) and isinstance(n.value, ast.Call) and astu.short_name(n.value) in ("get_dotted_key", "resolve"):
-                    for t in n.targets:
-                        if isinstance(t, ast.Name):
-                            vnames.add(t.id)
-            if vnames:
-                inspected |= _kinds_inspected(run, opt, mfn, vnames)
+        for module, c, wfn, fl, cursors in walks:
+            def is_template_call(x, _m=module):
+                r = run.repo.resolve_expr(_m, x.func) if isinstance(x.func, (ast.Name, ast.Attribute)) else None
+                return bool(r and r[0] == "class" and r[1] is tmpl)
+            seen, problems, n = vf.check_walk(fl, cursors, followed, _KIND_EQ, is_template_call)
+            inspected |= seen
+            if n:
+                judged[(module.relpath, (c.name + "." if c else "") + wfn.name, wfn.lineno)] = (problems, n)
         for k in sorted(followed):
-            eq = _KIND_EQ.get(k, {k})
-            ok = bool(inspected & eq)
+            ok = k in inspected
             res.add(f"labrea.option.Option.{op}:value-kind {k} inspected-for-templates", ok, opt.module.relpath, fn.lineno,
                     f"resolve() follows references inside {k}; Option.{op} inspects kinds {sorted(inspected)}", nec)
-    # path-sensitive part: in every helper that receives the value, a branch
-    # that recognises a kind must actually inspect it: strings through Template,
-    # containers by recursing into their elements (any nesting depth)
-    helpers = []
-    for op, fn in [(op_, mfn) for op_ in ("keys", "explain") for mn, mfn in astu.reachable_self_methods(opt, [op_]).items()
-                   if mn == op_ or mn not in ("keys", "explain", "evaluate", "validate")]:
-        for x in astu.calls_in(fn):
-            if isinstance(x.func, ast.Attribute) and isinstance(x.func.value, ast.Name) and x.func.value.id in ("self", "cls", "Option"):
-                r = opt.find_method(x.func.attr)
-                if r and x.func.attr not in ("keys", "explain", "evaluate", "validate") and any(isinstance(a, ast.Name) for a in x.args):
-                    tfn = r[1]
-                    if any(astu.short_name(c) == "isinstance" for c in astu.calls_in(tfn)) and tfn not in helpers:
-                        helpers.append(tfn)
-    for tfn in helpers:
-        ctx = Ctx(run.repo)
-        from .interp import Frame, Path as IPath, SELF
-        fr = Frame(ctx, opt.module, opt, None, None, 0, (), f"Option.{tfn.name}")
-        names = [a.arg for a in tfn.args.posonlyargs + tfn.args.args]
-        env = {n_: Sym(n_) for n_ in names}
-        ctx.call_stack = [id(tfn)]
-        paths = fr.run_function(tfn, env, IPath())
-        bad = []
-        n_branches = 0
-        for p in paths:
-            if p.status != "ret":
-                continue
-            kinds_true = []
-            for ck_, pol_ in Frame.atoms(p.conds).items():
-                mk_ = re.match(r"call:isinstance\((\w+),(.*)\)$", ck_)
-                if mk_ and pol_ is True:
-                    # the kind tested, from the term (class<…X> / ext<typing.X> / name<X> / a tuple of them)
-                    for nm_ in re.findall(r"(?:class|ext|name)<([^>]+)>", mk_.group(2)):
-                        kinds_true.append(nm_.split(".")[-1])
-            if not kinds_true:
-                continue
-            n_branches += 1
-            evs = [e for e in p.events if e.kind in ("op", "call")]
-            recursed = any(e.kind == "call" and e.text.endswith("<recursive>") for e in evs)
-            templated = any(("Template" in (e.target.key() if e.target is not None else "")) or e.text in ("getattr",) or "Template" in e.text for e in evs)
-            for k in kinds_true:
-                kk = k.split(".")[-1]
-                if kk == "str" and not (templated or recursed):
-                    bad.append(f"a str value is recognised but not inspected through Template (returns {p.ret.key()[:40]})")
-                if kk in ("Mapping", "dict", "list", "Sequence", "MutableMapping") and not recursed:
-                    bad.append(f"a {kk} value is recognised but its elements are not inspected recursively (returns {p.ret.key()[:50]}): "
-                               "templates nested deeper, or inside this kind at all, are missed")
-        res.add(f"labrea.option.Option.{tfn.name}:every recognised kind is inspected (containers recursively)", not bad and n_branches >= 2, opt.module.relpath, tfn.lineno,
-                f"{n_branches} kind branches, all inspect their value" if not bad else bad[0], nec)
+    # def-use part (sa/valueflow.py): in every function the value is handed to, a branch that recognises a kind
+    # must actually inspect it: strings through Template, containers by sending their elements (a mapping's
+    # values) back to a variable that is tested for every kind again (any nesting depth)
+    for (rel, name, line), (problems, n) in sorted(judged.items()):
+        modname = rel[:-3].replace("/", ".")
+        res.add(f"{modname}.{name}:every recognised kind is inspected (containers recursively)", not problems, rel, line,
+                f"{n} kind branches, all inspect their value" if not problems else problems[0], nec)
+    res.count("value-walk functions", len(judged))
+    if not judged:
+        raise AnalysisError("R-RK: no function tests the kind of the looked-up value (anchor vanished)")
     return res
